@@ -186,6 +186,7 @@ def decide_entry(f, rec):
             out.append(("violated", c.label, "may panic: %s" % (it.panics[0]["site"],)))
             continue
         bad = None
+        bad_graphs = None
         for (gn, gb), (en, eb) in zip(got, c.expected):
             if len(gb) != len(eb):
                 bad = "%s has %d bits, expected %d" % (gn, len(gb), len(eb))
@@ -194,9 +195,18 @@ def decide_entry(f, rec):
             if i is not None:
                 bad = "%s differs from the scalar definition first at bit %d: got %s, expected %s" % (
                     gn, i, bv.show_bit(gb[i]), bv.show_bit(eb[i]))
+                w = bv.find_witness(gb, eb)
+                if w is None:
+                    bad = None
+                    out.append(("undecided", c.label, "normal forms differ at bit %d but no distinguishing operand values were found" % i))
+                    bad_graphs = "skip"
+                else:
+                    bad += " [witness: %s]" % ", ".join("%s=%s" % (k, v[:40]) for k, v in w["inputs"].items())
                 break
         if bad:
             out.append(("violated", c.label, bad))
+        elif bad_graphs == "skip":
+            pass
         else:
             out.append(("ok", c.label, None))
     return out
